@@ -419,6 +419,9 @@ func (fx *Fx) applyContract(st *State, ct *Contract, fn *ssa.Function, args []Va
 	vars := map[string]Val{}
 	for i, n := range names {
 		vars[n] = args[i]
+		if _, taken := vars[n+"0"]; !taken {
+			vars[n+"0"] = args[i] // the entry value of the parameter, as exit clauses of the callee name it
+		}
 	}
 	// a closure called under its own contract: captured variables are named as in the closure body
 	// (&x the cell, x its current value, x0 its value before the call)
